@@ -404,6 +404,19 @@ func vfLifeHistory(t *testing.T, rng *rand.Rand, nops int, cfg vfLifeCfg) (lit s
 			// both routes one after the other on a fully established peer: put into the blacklist directly, then BlacklistPeer
 			script = []forcedOp{{0, -1, -1}, {15, -1, -1}, {40, -1, 0}, {90, 0, 0}, {90, 2, 0}, {58, -1, -1}, {57, -1, -1}, {54, -1, -1}}
 		}
+		if cfg.script == 6 && !cfg.blacklistOps {
+			// the node's outbound stream to the (grafted) peer is reset five times while the connection stays up - once more than
+			// the respawn backoff allows, so the node gives up re-opening it -, then the peer goes away for good
+			script = []forcedOp{{0, -1, -1}, {15, -1, -1}, {40, -1, 0}, {90, 0, 0}, {90, 2, 0}}
+			for k := 0; k < 5; k++ {
+				script = append(script, forcedOp{28, -1, -1}, forcedOp{54, -1, -1})
+			}
+		}
+		if cfg.script == 5 && cfg.blacklistOps {
+			// a message from the peer (and one naming it as author, relayed by the third party) sits in the validation pipeline
+			// when the peer is put into the blacklist DIRECTLY (its outbound queue stays): neither may come out delivered
+			script = []forcedOp{{0, -1, -1}, {15, -1, -1}, {40, -1, 0}, {90, 0, 0}, {60, -1, -1}, {90, 7, 0}, {64, -1, 5}, {58, -1, -1}, {60, -1, -1}, {54, -1, -1}}
+		}
 		if cfg.script == 2 && cfg.blacklistOps {
 			// the peer is put into the blacklist DIRECTLY while the node's outbound stream to it is in its retry delay; the
 			// stream that completes afterwards must be refused
@@ -588,6 +601,9 @@ func vfLifeHistory(t *testing.T, rng *rand.Rand, nops int, cfg vfLifeCfg) (lit s
 					continue
 				}
 				tt := vfTopic(rng.Intn(2))
+				if ftp == 5 {
+					tt = vfTopic(0) // scripted: the topic that has the holding validator
+				}
 				id := nextMid
 				nextMid++
 				if cfg.script == 3 && fk == -1 && ftp == 0 {
@@ -709,6 +725,12 @@ func TestVF_Life(t *testing.T) {
 		if c%8 == 7 {
 			cfg.script = 4
 		}
+		if c%16 == 11 {
+			cfg.script = 5
+		}
+		if c%16 == 4 {
+			cfg.script = 6
+		}
 		lit, rec, _, nt, qv := vfLifeHistory(t, rng, 30+rng.Intn(50), cfg)
 		if qv != nil && !wroteQV {
 			wroteQV = true
@@ -727,8 +749,119 @@ func TestVF_Life(t *testing.T) {
 		}
 	}
 	cs.extra["histories_with_a_backlog_at_blacklistpeer"] = nBacklog
+	// the other two routers (and a gossipsub node whose peer is a direct peer): the inbound half of C16 on a topic without
+	// validator - a message received from a blacklisted peer, or naming it as author, is not delivered
+	if v, n := vfSimpleBlacklist(t, rng); v != nil {
+		js, _ := json.MarshalIndent(v, "", " ")
+		os.WriteFile(filepath.Join(vfOutDir(t), "violation_life_origin.json"), js, 0o644)
+	} else {
+		cs.extra["simple_router_blacklist_scenarios"] = n
+	}
 	cs.flush("random lifecycles of a remote peer over REAL streams against a real gossipsub node (scoring, gater, extensions, recording connection manager; protocol versions floodsub .. v1.3): connect, open / close / reset of either stream direction in any order, RPCs of every kind incl. on a stream that outlives the other direction, node-side subscribe / cancel / heartbeats, virtual time, disconnects followed by redials, a third party relaying messages that name the peer as author, a peer that stops reading while big messages are forwarded to it (a backlog in its outbound queue at the moment of BlacklistPeer), and (every other history) BlacklistPeer or direct insertion into a map / time-cached blacklist at a random point; after EVERY action every per-peer map of the node is inspected inside the event loop; at the end the peer's host is closed and 17 s with 34 heartbeats pass. " +
 		"non-trivial = at least one RPC sent on the inbound stream while the outbound stream was down and more than 10 actions; distinct = hash of the observations")
+}
+
+// vfSimpleBlacklist: for floodsub, randomsub and gossipsub-with-a-direct-peer, both blacklist implementations and both routes:
+// peer B (blacklisted) sends a message of its own, a message without author and a good peer C relays one naming B as author;
+// nothing of it may reach the subscription.
+func vfSimpleBlacklist(t *testing.T, rng *rand.Rand) (viol map[string]any, n int) {
+	for router := 0; router < 3; router++ {
+		for impl := 0; impl < 2; impl++ {
+			for route := 0; route < 2; route++ {
+				synctest.Test(t, func(t *testing.T) {
+					ctx, cancel := context.WithCancel(context.Background())
+					defer cancel()
+					hs := vfHosts(t, 3)
+					ha, hb, hc := hs[0], hs[1], hs[2]
+					var bl Blacklist = NewMapBlacklist()
+					if impl == 1 {
+						tb, err := NewTimeCachedBlacklist(time.Hour)
+						if err != nil {
+							t.Fatal(err)
+						}
+						bl = tb
+						defer tb.(*TimeCachedBlacklist).tc.Done()
+					}
+					opts := []Option{WithBlacklist(bl), WithMessageSignaturePolicy(StrictNoSign), WithMessageIdFn(vfMsgID)}
+					var ps *PubSub
+					var err error
+					proto := FloodSubID
+					switch router {
+					case 0:
+						ps, err = NewFloodSub(ctx, ha, opts...)
+					case 1:
+						ps, err = NewRandomSub(ctx, ha, 10, opts...)
+					default:
+						proto = GossipSubID_v11
+						ps, err = NewGossipSub(ctx, ha, append(opts, WithDirectPeers([]peer.AddrInfo{{ID: hb.ID(), Addrs: hb.Addrs()}}))...)
+					}
+					if err != nil {
+						t.Fatal(err)
+					}
+					sub, err := ps.Subscribe("t0")
+					if err != nil {
+						t.Fatal(err)
+					}
+					mb := &vfMock{t: t, h: hb, a: ha, proto: proto}
+					mb.install()
+					mc := &vfMock{t: t, h: hc, a: ha, proto: proto}
+					mc.install()
+					for _, m := range []*vfMock{mb, mc} {
+						if err := m.h.Connect(ctx, peer.AddrInfo{ID: ha.ID(), Addrs: ha.Addrs()}); err != nil {
+							t.Fatal(err)
+						}
+						if st, err := m.h.NewStream(ctx, ha.ID(), proto); err == nil {
+							m.out = st
+						}
+					}
+					time.Sleep(time.Second)
+					if route == 0 {
+						ps.BlacklistPeer(hb.ID())
+					} else {
+						vfEval(ps, func() { ps.blacklist.Add(hb.ID()) })
+					}
+					time.Sleep(200 * time.Millisecond)
+					tt := "t0"
+					mb.send(&pb.RPC{Publish: []*pb.Message{{Data: []byte("9101:own"), Topic: &tt, From: []byte(hb.ID())}}})
+					mb.send(&pb.RPC{Publish: []*pb.Message{{Data: []byte("9102:anon"), Topic: &tt}}})
+					mc.send(&pb.RPC{Publish: []*pb.Message{{Data: []byte("9103:relayed"), Topic: &tt, From: []byte(hb.ID())}}})
+					mc.send(&pb.RPC{Publish: []*pb.Message{{Data: []byte("9104:good"), Topic: &tt}}})
+					time.Sleep(time.Second)
+					synctest.Wait()
+					good := false
+					for {
+						select {
+						case m := <-sub.ch:
+							if string(m.Data) == "9104:good" {
+								good = true
+							} else if viol == nil {
+								viol = map[string]any{"property": "C16", "code": 167, "key": "delivered-from-blacklisted-peer",
+									"what": fmt.Sprintf("a message received from (or naming as author) a blacklisted peer was delivered to the subscription: %q, received from the blacklisted peer: %v", m.Data, m.ReceivedFrom == hb.ID()),
+									"router": []string{"floodsub", "randomsub", "gossipsub, the peer is a direct peer"}[router], "blacklist_impl": []string{"map", "timecached"}[impl],
+									"route": []string{"BlacklistPeer", "inserted into the blacklist directly"}[route]}
+							}
+							continue
+						default:
+						}
+						break
+					}
+					if !good && viol == nil {
+						t.Logf("control message of the good peer not delivered (router %d)", router)
+					}
+					n++
+					sub.Cancel()
+					cancel()
+					for _, h := range hs {
+						h.Close()
+					}
+					time.Sleep(3 * time.Second)
+					synctest.Wait()
+				})
+			}
+		}
+	}
+	_ = rng
+	return
 }
 
 type vfSendTracer struct {
